@@ -102,6 +102,7 @@ const (
 	cHookMissingRefused
 	cHookMissingSameBytes
 	cStreamedLiteral
+	cDecodeShared
 	cMailboxNonIdentity
 	cInboxFolded
 	cFlagAccepted
@@ -123,7 +124,7 @@ const (
 var cntNames = [nCounters]string{
 	"strings_quoted_plain", "strings_quoted_with_escapes", "strings_quoted_8bit", "strings_quoted_invalid_utf8_under_QuotedUTF8",
 	"strings_literal_sync_client", "strings_literal_nonsync_client", "strings_literal_server",
-	"continuation_hook_calls", "hook_missing_cases_needing_sync_literal", "hook_missing_cases_not_needing_it", "literals_streamed_through_reader",
+	"continuation_hook_calls", "hook_missing_cases_needing_sync_literal", "hook_missing_cases_not_needing_it", "literals_streamed_through_reader", "string_decodes_not_repeated_identical_bytes_same_decoder_side",
 	"mailbox_encoding_not_identity", "mailbox_inbox_folded",
 	"flags_accepted", "flags_refused", "flags_malformed_cases", "flags_case_fold_cases", "flags_8bit_accepted_dont_care", "attrs_folded_as_wellknown_flag",
 	"numsets_empty_cases", "numsets_representation_differs_same_set", "searchres_cases",
@@ -142,6 +143,8 @@ type wctx struct {
 	chunk [1024]byte
 
 	nonSync bool // reported by the last ExpectNStringReader
+	seen    [2][8][]byte
+	nSeen   [2]int
 
 	cnt       [nCounters]int64
 	evals     int64
@@ -176,6 +179,24 @@ func putCtx(x *wctx) {
 	ctxMu.Lock()
 	ctxFree = append(ctxFree, x)
 	ctxMu.Unlock()
+}
+
+// seenWire reports whether identical bytes were already decoded for this string in this
+// direction, and remembers them otherwise.
+func (x *wctx) seenWire(c2s bool, w []byte) bool {
+	d := 0
+	if c2s {
+		d = 1
+	}
+	for i := 0; i < x.nSeen[d]; i++ {
+		if bytes.Equal(x.seen[d][i], w) {
+			return true
+		}
+	}
+	i := x.nSeen[d]
+	x.seen[d][i] = append(x.seen[d][i][:0], w...)
+	x.nSeen[d]++
+	return false
 }
 
 func (x *wctx) eval(kind string, n int64) {
@@ -429,8 +450,10 @@ func stringDesc(s string, cd *caseDesc) *caseDesc {
 
 func checkString(x *wctx, s string, cd *caseDesc) {
 	var mask uint
+	x.nSeen[0], x.nSeen[1] = 0, 0
 	for _, c := range cfgs {
 		c := c
+		x.eval("string-encode", 1)
 		o := x.encode(c, func(e *imapwire.Encoder) { e.String(s) })
 		if verbose {
 			fmt.Printf("config [%s]\n  encoder err=%v wire=%s\n", c, o.err, abbrev(o.wire))
@@ -440,7 +463,6 @@ func checkString(x *wctx, s string, cd *caseDesc) {
 			continue
 		}
 		if o.err != nil {
-			x.eval("string", 1)
 			violation("string:encoder-error", stringDesc(s, cd), c, "", "Encoder.String refused a string although a continuation hook is present: "+o.err.Error(), o.wire)
 			continue
 		}
@@ -510,10 +532,16 @@ func checkString(x *wctx, s string, cd *caseDesc) {
 				x.maxLMOnly = sc.LitLen
 			}
 		}
+		// The decoder has no mode: what it does is a function of (bytes, decoder side) only. Bytes
+		// identical to those of an earlier configuration of the same direction are not decoded again.
+		if !bad && !verbose && x.seenWire(c.C2S, o.wire) {
+			x.cnt[cDecodeShared] += int64(len(stringReaders))
+			bad = true
+		}
 		if !bad {
 			for ri := range stringReaders {
 				ri := ri
-				x.eval("string", 1)
+				x.eval("string-decode", 1)
 				problem, class := x.decodeCheck(c, o.wire, sc.End, func(dec *imapwire.Decoder) string { return x.readString(dec, ri, s) })
 				if verbose {
 					fmt.Printf("  %-20s %s\n", stringReaders[ri], orOK(problem))
@@ -1921,7 +1949,7 @@ func main() {
 		}
 	}
 
-	run.Rule = "every byte string up to the length bound over a 16-symbol alphabet derived from the branches of Encoder.validQuoted/Quoted/stringLiteral and Decoder.Quoted/Literal (7-bit, SP, the two quoted-specials, CR, LF, NUL, DEL, '{', '(', ')', '%', ']', the two halves of a valid 2-byte rune, an invalid UTF-8 byte) plus a threshold family (lengths 4093..4097 and 8192 with each symbol first/middle/last) x 16 configurations (2 directions x QuotedUTF8 x LiteralMinus x LiteralPlus) x 5 readers, and again with the continuation hook absent / returning nil; every valid UTF-8 mailbox name up to the rune bound over a 12-rune alphabet plus INBOX casings and neighbours; system flags / attributes in 4 casings, keywords, one flag per atom-special and a malformed set; boundary numbers through every compatible reader; every number set reachable by <=3 insertions over 7 endpoints in both flavours, empty sets, SEARCHRES; every ordered tree up to the node bound with 5 leaf kinds through 2 writers x 2 readers; depth chains around the cap of 1000. non-trivial = distinct (string, wire form) pairs whose encoding needs an escape, 8-bit quoting or a literal; distinct names with UTF-7/escape/INBOX fold; distinct folded flags; distinct number-set texts with ':' ',' '*' '$'; trees with depth >= 2 or a leaf that needs escaping/literal"
+	run.Rule = "every byte string up to the length bound over a 16-symbol alphabet derived from the branches of Encoder.validQuoted/Quoted/stringLiteral and Decoder.Quoted/Literal (7-bit, SP, the two quoted-specials, CR, LF, NUL, DEL, '{', '(', ')', '%', ']', the two halves of a valid 2-byte rune, an invalid UTF-8 byte) plus a threshold family (lengths 4093..4097 and 8192 with each symbol first/middle/last) written under 16 configurations (2 directions x QuotedUTF8 x LiteralMinus x LiteralPlus), each distinct byte sequence per direction read by 5 readers (the decoder has no mode, identical bytes are decoded once per side), and again with the continuation hook absent / returning nil; every valid UTF-8 mailbox name up to the rune bound over a 12-rune alphabet plus INBOX casings and neighbours; system flags / attributes in 4 casings, keywords, one flag per atom-special and a malformed set; boundary numbers through every compatible reader; every number set reachable by <=3 insertions over 7 endpoints in both flavours, empty sets, SEARCHRES; every ordered tree up to the node bound with 5 leaf kinds through 2 writers x 2 readers; depth chains around the cap of 1000. non-trivial = distinct (string, wire form) pairs whose encoding needs an escape, 8-bit quoting or a literal; distinct names with UTF-7/escape/INBOX fold; distinct folded flags; distinct number-set texts with ':' ',' '*' '$'; trees with depth >= 2 or a leaf that needs escaping/literal"
 	run.Exhaustive = true
 	run.Assume("negative int64 is not an IMAP number64 (Encoder.Number64 carries a TODO to disallow it): excluded")
 	run.Assume("flags/attributes containing 8-bit bytes: RFC-illegal but the encoder and decoder are deliberately liberal; only the round trip is checked, their acceptance is not reported")
